@@ -21,6 +21,7 @@ HARNESSES = [
     dict(name="opaque", src="props/opaque.cpp", variant="plain"),
     dict(name="gradients", src="props/gradients.cpp", variant="plain"),
     dict(name="lifetime_asan", src="props/lifetime.cpp", variant="asan"),
+    dict(name="oom_asan", src="props/oom.cpp", variant="asan"),
     dict(name="history", src="props/history.cpp", variant="plain"),
     dict(name="history_asan", src="props/history.cpp", variant="asan"),
     dict(name="glyphs", src="props/glyphs.cpp", variant="plain"),
@@ -420,4 +421,27 @@ CHECKS["C20"] = dict(
     floor=T(80000, 2000000), nt_floor=T(15000, 300000),
     assumptions=["images are never touched after the model says their last reference is gone (that would be a caller error)",
                  "the live-allocation counter covers allocations made by the library (compile-time rename of malloc/calloc/realloc/free in the asan variant)"],
+)
+
+CHECKS["C15"] = dict(
+    level="fault_enumeration",
+    rule=("rapidcheck scenarios (short API programs): 16/32-bit region algebra on multi-rectangle regions (init_rects with up to 87 "
+          "scattered boxes so that validate() outgrows its stack array, union/intersect/subtract/inverse/copy/union_rect/"
+          "translate chains), image constructors (library-owned bits, three gradients, solid), allocating setters (transform, "
+          "filter parameters, multi-box clip) followed by a draw, fill_rectangles with > 6 rectangles, composites that need heap "
+          "scanline buffers (700 px wide 10 bpc / 2100 px 8 bpc rows, destination alpha maps, wide stores, division operators), "
+          "composite_trapezoids/_triangles, glyph cache create/insert/composite_glyphs(_no_mask), "
+          "pixman_filter_create_separable_convolution, 16<->32-bit region conversion through clip + compute_composite_region. "
+          "Each scenario is run fault-free (counting its N allocations) and then for every k = 1..N with only the k-th allocation "
+          "failing and with the k-th and all later ones failing (exhaustive over k). Oracle: no ASan report; the library's live "
+          "allocation count returns to its starting value after every run; constructors return NULL or an object that can be "
+          "drawn with and destroyed; region operations return FALSE with the broken region (n_rects 0, not_empty FALSE) which later "
+          "operations propagate and fini accepts, TRUE results pass selfcheck and equal the fault-free results; setters report "
+          "FALSE or take effect (the image then renders like one with exactly the reported settings, or the void draw skipped "
+          "work); void drawing changes nothing outside the request; a failed glyph insert leaves no entry. Non-trivial = a fault was "
+          "actually injected into an allocation of the scenario."),
+    jobs=[dict(harness="oom_asan", prop="oom", cases=T(700, 8000), procs=T(8, 14))],
+    floor=T(4000, 80000), nt_floor=T(2000, 40000),
+    assumptions=["allocation failure is injected through a compile-time rename of malloc/calloc/realloc/free in the library objects (asan variant); allocations made by libc on the library's behalf (none today) would not be seen",
+                 "per the statement, void drawing may skip work after a failed allocation; pixels inside the request are not asserted then"],
 )
